@@ -21,8 +21,10 @@ macro_rules! env {
 pub(crate) use env as __env_by_path;
 
 mod ce;
+mod conc;
 mod gens;
 mod isolate;
+mod libsim;
 mod oracle;
 mod rng;
 mod rsparse;
@@ -855,6 +857,9 @@ fn be_check(dir: &Path, stride: u64, target: &str, what: &str) -> BeReport {
                 rep.mismatches.clear();
             }
         }
+        None if text.lines().any(|l| l.starts_with("BE-SKIP ")) => {
+            rep.status = format!("skipped: {}", text.lines().find(|l| l.starts_with("BE-SKIP ")).unwrap_or("").trim_start_matches("BE-SKIP "));
+        }
         None => {
             let err = String::from_utf8_lossy(&out.stderr);
             let why = err.lines().rev().find(|l| !l.trim().is_empty()).unwrap_or("no output").to_string();
@@ -1088,8 +1093,39 @@ fn data_unreadable_violation(e: &str) -> Violation {
     }
 }
 
+/// Names and sizes of everything below the repository crate (and of the workspace root's own
+/// entries): the simulated programs must never reach the real disk. (Round 11: a `use std::fs`
+/// inside an *inline* module of a generator resolved to the real `std` and left a real directory
+/// in the repository; the build now shadows `std` in every inline module, and this guard turns
+/// whatever other route a future program finds into a harness error instead of silence.)
+fn real_tree_digest() -> u64 {
+    fn walk(dir: &Path, f: &mut rng::Fnv, depth: u32) {
+        let Ok(rd) = std::fs::read_dir(dir) else { return };
+        let mut v: Vec<_> = rd.flatten().collect();
+        v.sort_by_key(|e| e.file_name());
+        for e in v {
+            let p = e.path();
+            let name = e.file_name().to_string_lossy().into_owned();
+            // build output of the baseline test suite and git's own files may change under us
+            if depth == 0 && (name == "target" || name == ".git") {
+                continue;
+            }
+            f.str(&name);
+            match e.metadata() {
+                Ok(m) if m.is_dir() => walk(&p, f, depth + 1),
+                Ok(m) => f.u64(m.len()),
+                Err(_) => {}
+            }
+        }
+    }
+    let mut f = rng::Fnv::default();
+    walk(Path::new("/repo"), &mut f, 0);
+    f.0
+}
+
 fn cmd_check(a: &Args) -> i32 {
     let t0 = Instant::now();
+    let tree_before = real_tree_digest();
     let tier = a
         .opts
         .get("tier")
@@ -1218,6 +1254,7 @@ fn cmd_check(a: &Args) -> i32 {
         let _ = sim::execute(g, &ctx.image, sim::replay_mode(&[]), false, false);
         sim::set_label(None);
     }
+    sim::prime_output_hints(&ctx.image);
     let stride_layout = (layout_runs / 512).max(1);
     let t_sim = Instant::now();
     // deterministic adjacency-covering family first (seed-independent), then the seeded search
@@ -1300,6 +1337,41 @@ fn cmd_check(a: &Args) -> i32 {
         harness_error(&format!("determinism self-check failed: {} of {} re-executed sessions differ", sess_recheck.1, sess_recheck.0));
     }
     let sess_wall = t_sess.elapsed().as_secs_f64();
+    // ---- S7: concurrent callers of the lookup (the library compiled under the thread engine)
+    let t_conc = Instant::now();
+    let conc_state = conc::library_process_state();
+    let conc_runs = opt_u64(a, "conc-runs", match (tier.as_str(), conc_state.is_some()) {
+        ("quick", false) => 4_000,
+        ("quick", true) => 8_000,
+        (_, false) => 100_000,
+        (_, true) => 1_500_000,
+    });
+    let conc_rep = conc::run_batch(seed, conc_runs, threads, secs(60, 1800));
+    let conc_wall = t_conc.elapsed().as_secs_f64();
+    println!(
+        "concurrent callers (S7): {} runs ({}), {} lookups and direction queries from up to {} caller threads, {} scheduling steps, {} with a choice, {} context switches, {} distinct interleavings over {} workloads, failing runs {}; determinism recheck {} runs, {} mismatches",
+        conc_rep.runs,
+        match &conc_rep.process_state {
+            Some(w) => format!("the library keeps process-wide state — {} — so every run has a forked process of its own", w),
+            None => "the library keeps no state between calls: a lookup is one uninterrupted step".to_string(),
+        },
+        conc_rep.answers,
+        conc_rep.max_threads,
+        conc_rep.steps,
+        conc_rep.choice_points,
+        conc_rep.switches,
+        conc_rep.distinct_interleavings,
+        conc_rep.distinct_workloads,
+        conc_rep.failing_runs,
+        conc_rep.determinism_rechecked,
+        conc_rep.determinism_mismatches
+    );
+    if conc_rep.requested > conc_rep.runs {
+        println!("NOTE: concurrent callers: {} of the requested runs were not executed (wall-clock budget)", conc_rep.requested - conc_rep.runs);
+    }
+    if conc_rep.determinism_mismatches > 0 {
+        harness_error(&format!("determinism self-check failed: {} of {} re-executed concurrent-callers runs differ", conc_rep.determinism_mismatches, conc_rep.determinism_rechecked));
+    }
     // ---- fidelity cross-check: the real binaries, run for real (no seam), must print what the
     // simulated programs printed and what the tables hold
     let real_dir = a.opts.get("real-bins").map(PathBuf::from);
@@ -1409,6 +1481,9 @@ fn cmd_check(a: &Args) -> i32 {
         println!("{} machine (Miri, {}): {} rows looked up, {} wrong ({}, {:.1}s)", what, target, rep.rows, rep.wrong, rep.status, rep.wall_s);
         bes.push((target, what, rep));
     }
+    if real_tree_digest() != tree_before {
+        harness_error("the repository's working tree changed while the check ran: a simulated program reached the real file system around the seams (or something else is writing to /repo); no verdict is given");
+    }
     // ---- collect violations: static first, then per-run (one replay per violation class)
     let mut reported: Vec<(Violation, PathBuf)> = vec![];
     let mut known_lines: Vec<String> = vec![];
@@ -1514,6 +1589,24 @@ fn cmd_check(a: &Args) -> i32 {
                 reported.push((final_v, p));
             }
         }
+    }
+    for (run, v) in &conc_rep.failing {
+        if let Some((_s, what)) = is_known(v) {
+            known_lines.push(format!("KNOWN-FINDING: property={} {} ({})", PROPERTY, v.signature, what));
+            continue;
+        }
+        let (final_v, cj) = match conc::minimise(seed, *run, conc_rep.forked, &v.signature) {
+            Some(m) => (conc::violation_of(&m.outcome).unwrap_or_else(|| v.clone()), conc::replay_json(&m)),
+            None => harness_error(&format!("concurrent-callers run {} does not fail again when re-executed from its explicit schedule: {}", run, v.detail)),
+        };
+        let p = write_replay(&replay_dir, &ctx, "conc", None, seed, Some(*run), &tier, &final_v, &[], json!({"failing_runs_in_batch": conc_rep.failing_runs}));
+        // the workload and the schedule of the run live under "conc" in the file
+        let mut j: serde_json::Value = serde_json::from_str(&std::fs::read_to_string(&p).unwrap_or_default()).unwrap_or(json!({}));
+        j["conc"] = cj;
+        if let Err(e) = std::fs::write(&p, serde_json::to_string_pretty(&j).unwrap() + "\n") {
+            harness_error(&format!("cannot write {}: {}", p.display(), e));
+        }
+        reported.push((final_v, p));
     }
     for (gen, v, _text) in &real_viol {
         // the simulated search normally reports the same defect with an exact replay; a real-run
@@ -1630,6 +1723,7 @@ fn cmd_check(a: &Args) -> i32 {
                 "stderr_prints_discarded": sum.stderr_prints,
                 "prints_after_process_exit_discarded": sum.prints_after_exit,
                 "read_errors_eio_injected_in_gating_runs": sum.read_faults_injected,
+                "runs_in_which_the_output_device_filled_up_enospc_in_gating_runs": sum.write_faults_injected,
                 "hard_io_faults_in_gating_runs": "one kind: EIO on one seeded read in a sixth of the seeded runs; a run that meets it may fail loudly (the pinned generators do: expect()) but may not complete with a different table. Missing files, torn or corrupt content and listing errors stay in the non-gating exploration (DESIGN §4.4)",
             },
             "hard_fault_exploration_not_gating": {
@@ -1720,6 +1814,26 @@ fn cmd_check(a: &Args) -> i32 {
                     "rows_looked_up": rep.rows, "rows_wrong": rep.wrong, "wall_s": rep.wall_s,
                 })).collect::<Vec<_>>(),
             },
+            "concurrent_callers": {
+                "note": "S7: the library's own source compiled a second time with the thread engine's sync/thread primitives (every lock, atomic, Once and thread-local of a lookup is a scheduling point), called from 2-4 simulated caller threads under the simulator's seeded scheduler (uniform, sticky, priority with change points); workload (which rows of the six tables and which directions each caller asks for) drawn from the same seed; every answer must be the value stored in the row asked for. The pinned lookup shares no state between callers, so a lookup is one step and only the order of whole calls varies; a lookup with process-wide state gets a forked process per run.",
+                "runs": conc_rep.runs,
+                "runs_per_hour": (conc_rep.runs as f64 / conc_wall.max(1e-9) * 3600.0) as u64,
+                "library_process_state": conc_rep.process_state,
+                "forked_process_per_run": conc_rep.forked,
+                "answers_checked": conc_rep.answers,
+                "scheduling_steps": conc_rep.steps,
+                "scheduling_choice_points_with_more_than_one_runnable_task": conc_rep.choice_points,
+                "context_switches": conc_rep.switches,
+                "deviations_from_the_no_preemption_default": conc_rep.deviations,
+                "distinct_interleavings_digest_of_workload_and_task_sequence": conc_rep.distinct_interleavings,
+                "distinct_workloads": conc_rep.distinct_workloads,
+                "max_caller_threads": conc_rep.max_threads,
+                "scheduler_policies": conc_rep.by_policy,
+                "failing_runs": conc_rep.failing_runs,
+                "determinism_runs_reexecuted": conc_rep.determinism_rechecked,
+                "determinism_mismatches": conc_rep.determinism_mismatches,
+                "sample": conc_rep.sample,
+            },
             "real_process_reruns": {
                 "note": "fidelity cross-check of the simulator: the repository's generator binaries built without the hook and run as real processes (real file system order, real RandomState); their output must equal the compiled tables like every simulated run's",
                 "runs": real_done,
@@ -1743,6 +1857,7 @@ fn cmd_check(a: &Args) -> i32 {
                     "unic_langid_impl parser, subtag types, integer conversions, likelysubtags::maximize (path dependency on /repo, built with --cfg unic_locale_verif)",
                     "compiled statics LANG_ONLY..REGION_ONLY, CLDR_VERSION, layout_table constants (read through hook H1)",
                     "serde_json, tinystr, std HashMap/HashSet table implementation (hashbrown) under a seeded SipHash BuildHasher",
+                    "S7: unic-langid-impl/src/** (library sources, copied unmodified except that std/core::sync, thread and thread_local! resolve to the thread engine's) called from simulated caller threads",
                 ],
                 "stubs": [
                     "file system: in-memory image of /repo/unic-langid-impl/data loaded from the working tree at start; read_dir order chosen by the simulator",
@@ -1973,6 +2088,7 @@ fn cmd_replay(a: &Args) -> i32 {
         Ok(i) => Arc::new(i),
         Err(e) => harness_error(&format!("cannot load the data image: {}", e)),
     };
+    sim::prime_output_hints(&image);
     let (comp, rf) = match load_static(&image) {
         Ok(x) => x,
         Err(e) => {
@@ -2004,6 +2120,15 @@ fn cmd_replay(a: &Args) -> i32 {
             }
             be_violations(&rep, &target, &what)
         }
+        Some("conc") => match conc::replay(&j) {
+            Ok(v) => v,
+            Err(e) => {
+                if !quiet {
+                    println!("{}", e);
+                }
+                vec![]
+            }
+        },
         Some("real") => {
             let gen = Gen::parse(j["generator"].as_str().unwrap_or("")).unwrap_or_else(|| harness_error("replay file: bad generator"));
             let dir = PathBuf::from(j["minimisation"]["real_bins"].as_str().unwrap_or("/verif/gensim/target/realbins/debug"));
@@ -2079,6 +2204,11 @@ fn cmd_replay(a: &Args) -> i32 {
                         },
                         r.disk_after.files.iter().map(|(k, v)| format!("{} ({} bytes)", k, v.len())).collect::<Vec<_>>()
                     );
+                    if std::env::var_os("GENSIM_DUMP_DISK").is_some() {
+                        for (k, v) in r.disk_after.files.iter() {
+                            println!("---- {} after run {}:\n{}", k, i, String::from_utf8_lossy(v));
+                        }
+                    }
                 }
             }
             let mut good = vec![];
@@ -2140,6 +2270,7 @@ fn cmd_trace(a: &Args) -> i32 {
         Ok(i) => Arc::new(i),
         Err(e) => harness_error(&format!("cannot load the data image: {}", e)),
     };
+    sim::prime_output_hints(&image);
     if a.opts.contains_key("sessions") {
         // crash-restart histories: one line per session (digest of all event logs and disk states)
         let m0 = sim::execute(gen, &image, sim::replay_mode(&[]), false, false).crash_points;
@@ -2152,7 +2283,7 @@ fn cmd_trace(a: &Args) -> i32 {
                 while i < to {
                     let (steps, ms) = sim::session_steps(seed, gen, &image, i, m0);
                     let r = sim::execute_session(gen, &image, &steps, ms, false);
-                    let kinds: Vec<String> = r.runs.iter().map(|x| x.crashed.map(|k| k.name().to_string()).unwrap_or_else(|| if x.panic.is_some() { "failed".into() } else { "ok".into() })).collect();
+                    let kinds: Vec<String> = r.runs.iter().map(|x| x.crashed.map(|k| k.name().to_string()).unwrap_or_else(|| match &x.panic { Some(p) if std::env::var_os("GENSIM_TRACE_PANICS").is_some() => format!("failed[{}]", p.lines().next().unwrap_or("")), Some(_) => "failed".into(), None => "ok".into() })).collect();
                     let mut od = rng::Fnv::default();
                     od.bytes(r.last().out.as_bytes());
                     v.push((i, r.digest(), kinds.join(","), od.0, r.last().disk_after.digest()));
@@ -2181,7 +2312,16 @@ fn cmd_trace(a: &Args) -> i32 {
                 let r = sim::execute(gen, &image, sim::random_mode(seed, gen, i), false, false);
                 let mut od = rng::Fnv::default();
                 od.bytes(r.out.as_bytes());
-                v.push((i, r.log_digest, r.events, od.0, r.panic.is_some()));
+                let faults: Vec<String> = r
+                    .trace
+                    .iter()
+                    .filter_map(|d| match d {
+                        Decision::ReadFault { at } => Some(format!("eio@read{}", at)),
+                        Decision::WriteFault { at } => Some(format!("enospc@byte{}", at)),
+                        _ => None,
+                    })
+                    .collect();
+                v.push((i, r.log_digest, r.events, od.0, format!("{} {}", r.panic.is_some(), faults.join(","))));
                 i += threads;
             }
             v
@@ -2206,6 +2346,7 @@ fn cmd_show(a: &Args) -> i32 {
         Ok(i) => Arc::new(i),
         Err(e) => harness_error(&format!("cannot load the data image: {}", e)),
     };
+    sim::prime_output_hints(&image);
     let (comp, _rf) = load_static(&image).unwrap_or_else(|e| harness_error(&format!("reference model cannot read the CLDR data: {}", e)));
     let r = sim::execute(gen, &image, sim::random_mode(seed, gen, run), true, true);
     println!("profile: {:?}", r.profile.map(|p| p.name()));
